@@ -40,6 +40,7 @@ def run_task(task):
     t0 = time.time()
     rec = {
         "target": key,
+        "function": K.target,
         "cfg": cfg,
         "cfg_label": _cfg_label(cfg),
         "status": "ok",
